@@ -30,6 +30,7 @@ type c01Case struct {
 	Text     vfBytes  `json:"text"`
 	Alt      vfBytes  `json:"alt,omitempty"`      // another presentation of the same value (optional)
 	Versions []string `json:"versions,omitempty"` // room versions for the enforced variant
+	Near     bool     `json:"near,omitempty"`     // produced by damaging a valid text with <= 2 edits
 }
 
 func c01KeyNeedsEscape(v jv) bool {
@@ -93,7 +94,9 @@ func c01Check(ctx *vfCtx, c c01Case) {
 			return
 		}
 		ctx.Class("invalid")
-		ctx.NonTrivial()
+		if c.Near {
+			ctx.NonTrivial()
+		}
 		if err == nil {
 			ctx.Fail("C01/invalid-accepted", "invalid JSON %q (%v) was canonicalised to %q without error", text, perr, out)
 		}
@@ -292,7 +295,7 @@ func c01GenMutated(t *rapid.T) c01Case {
 			text = append(text, rapid.SampledFrom([]string{",", "]", "}", " x", "1", "\"\""}).Draw(t, "trail")...)
 		}
 	}
-	c := c01Case{Text: vfBytes(text)}
+	c := c01Case{Text: vfBytes(text), Near: true}
 	if rapid.Bool().Draw(t, "enforced") {
 		c.Versions = []string{rapid.SampledFrom(vfAllVersions).Draw(t, "ver")}
 	}
@@ -326,7 +329,7 @@ func c01EnumShort(size, shard, nshards int, emit func(c01Case)) {
 }
 
 func init() {
-	rule := "non-trivial = valid text whose bytes differ from its canonical form (unsorted keys, alternative escape spelling, whitespace, -0) or that contains a fraction/exponent/out-of-range number or that comes with a second presentation; or an invalid text (must be rejected). distinct = distinct Case JSON."
+	rule := "non-trivial = valid text whose bytes differ from its canonical form (unsorted keys, alternative escape spelling, whitespace, -0) or that contains a fraction/exponent/out-of-range number or that comes with a second presentation; or an invalid text within two byte edits of a valid one (must be rejected; the enumerated invalid texts are judged but not counted as non-trivial). distinct = distinct Case JSON."
 	vfRapid("C01/values", rule, 3000, 100000, 16, c01GenValue, c01Check)
 	vfRapid("C01/mutated", rule, 3000, 100000, 16, c01GenMutated, c01Check)
 	vfEnum("C01/short-texts", rule+" Enumerates every text up to the size bound over the alphabet `{}[]\"\\:,-01.eEu a` (17 symbols).", 4, 6, 16, c01EnumShort, c01Check)
